@@ -1,5 +1,114 @@
-import XsVerif.Driver.Util
-open Lean XsVerif.Driver
+import XsVerif.Driver.CMJson
+import XsVerif.Model.Incl
+import XsVerif.Model.Restriction
+open Lean XsVerif.Driver XsVerif.Wildcard XsVerif.CM XsVerif.Restr XsVerif
 
--- stub: replaced when the model of C14 lands
-def main : IO Unit := XsVerif.Driver.run fun _ => .error "C14 driver not implemented"
+namespace XsVerif.Driver.C14
+
+def optBool (j : Json) (k : String) (d : Bool) : Bool :=
+  match j.getObjValAs? Bool k with | .ok b => b | .error _ => d
+def optNat (j : Json) (k : String) (d : Nat) : Nat :=
+  match j.getObjValAs? Nat k with | .ok b => b | .error _ => d
+def optStr? (j : Json) (k : String) : Option String :=
+  match j.getObjVal? k with | .ok (.str s) => some s | _ => none
+def optQN? (j : Json) (k : String) : Option QN :=
+  match j.getObjVal? k with
+  | .ok v => match parseQN v with | .ok q => some q | .error _ => none
+  | .error _ => none
+
+def parsePC (s : String) : PC :=
+  match s with | "lax" => .lax | "skip" => .skip | _ => .strict
+
+def parseInfo (j : Json) : Except String (Nat × PInfo) := do
+  let id ← getNat j "id"
+  let subs ← match j.getObjVal? "subs" with
+    | .ok (.arr a) => a.toList.mapM parseQN
+    | _ => pure []
+  let block ← match j.getObjVal? "block" with
+    | .ok (.arr a) => a.toList.mapM (·.getStr?)
+    | _ => pure []
+  let idents ← match j.getObjVal? "idents" with
+    | .ok (.arr a) => a.toList.mapM (·.getNat?)
+    | _ => pure []
+  return (id, {
+    refTruthy := optBool j "refTruthy" false, isHead := optBool j "isHead" false,
+    isGlobal := optBool j "isGlobal" false, abstract := optBool j "abstract" false,
+    substGroup := optQN? j "substGroup", subs, typeId := optNat j "typeId" 0,
+    typeIsAny := optBool j "typeIsAny" false, typeAbstract := optBool j "typeAbstract" false,
+    fixed := optStr? j "fixed", nillable := optBool j "nillable" false, block, idents,
+    pc := parsePC ((optStr? j "pc").getD "strict"), gref := optBool j "gref" false,
+    hasParent := optBool j "hasParent" true, mixed := optBool j "mixed" false })
+
+def mkInfo (n : Nat) (l : List (Nat × PInfo)) : Array PInfo :=
+  l.foldl (fun a (i, x) => a.setIfInBounds i x) (Array.replicate n default)
+
+def verdictJson : Except Err Bool → Json
+  | .ok b => Json.bool b
+  | .error .fuel => Json.str "fuel"
+  | .error .raises => Json.str "raises"
+
+def qnJson (q : QN) : Json := Json.arr #[q.ns, q.loc]
+
+def inclJson : Rx.InclVerdict QN → Json
+  | .included => Json.str "included"
+  | .unknown => Json.str "unknown"
+  | .witness w => Json.mkObj [("w", Json.arr (w.map qnJson).toArray)]
+
+/-- {"op":"pair","v11":b,"n":ids,"d":particle,"b":particle,"info":[…],"derivOk":[[i,j],…],
+     "sig":[[ns,loc],…],"fuel":N,"words":[[…],…]}
+    → {"m": port verdict, "incl": oracle verdict, "states": |certificate|, "bf": first brute-force
+       counterexample index or null, "ext": number of extended wildcard copies (1.1 all rule)} -/
+def handlePair (j : Json) : Except String Json := do
+  let n ← getNat j "n"
+  let v11 ← getBool j "v11"
+  let (d, _) ← parseParticle (← j.getObjVal? "d")
+  let (b, _) ← parseParticle (← j.getObjVal? "b")
+  let infos ← (← getArr j "info").toList.mapM parseInfo
+  let derivOk ← match j.getObjVal? "derivOk" with
+    | .ok (.arr a) => a.toList.mapM fun p => do
+        let x ← p.getArr?
+        if h : x.size = 2 then pure ((← x[0].getNat?), (← x[1].getNat?)) else throw "derivOk"
+    | _ => pure []
+  let C : Ctx := { v11, info := mkInfo n infos, derivOk }
+  let sig ← (← getArr j "sig").toList.mapM parseQN
+  let fuel ← getNat j "fuel"
+  let words ← match j.getObjVal? "words" with
+    | .ok (.arr a) => a.toList.mapM fun w => do (← w.getArr?).toList.mapM parseQN
+    | _ => pure []
+  let rd := d.toRx
+  let rb := b.toRx
+  let incl := Rx.inclDecide Leaf.matches sig fuel rd rb
+  let bf : Json := match words.findIdx? fun w => Rx.accepts Leaf.matches rd w && !Rx.accepts Leaf.matches rb w with
+    | some i => Json.num i
+    | none => Json.null
+  return Json.mkObj [("m", verdictJson (contentRestriction C d b)),
+    ("acc", verdictJson (typeRestrictionAccepted C d b)),
+    ("admits", admitsRestriction C b d.kind), ("incl", inclJson incl),
+    ("states", Rx.inclStates Leaf.matches sig fuel rd rb), ("bf", bf),
+    ("ext", extendedCopies C (iterModel b)),
+    ("emptiable", Json.arr #[emptiable d, emptiable b]),
+    ("eff", Json.arr #[(eff d).1, match (eff d).2 with | some x => Json.num x | none => Json.null,
+                       (eff b).1, match (eff b).2 with | some x => Json.num x | none => Json.null])]
+
+def natOpt (j : Json) : Except String (Option Nat) :=
+  match j with | .null => pure none | v => some <$> v.getNat?
+
+/-- {"op":"occ","q":[[lo,hi,olo,ohi],…]} → {"r":[bool,…]}  (`has_occurs_restriction`) -/
+def handleOcc (j : Json) : Except String Json := do
+  let qs ← getArr j "q"
+  let rs ← qs.toList.mapM fun q => do
+    let a ← q.getArr?
+    if h : a.size = 4 then
+      pure (Json.bool (hasOccursRestriction (← a[0].getNat?) (← natOpt a[1]) (← a[2].getNat?) (← natOpt a[3])))
+    else throw "occ"
+  return Json.mkObj [("r", Json.arr rs.toArray)]
+
+def handle (j : Json) : Except String Json := do
+  match (← getStr j "op") with
+  | "pair" => handlePair j
+  | "occ" => handleOcc j
+  | _ => throw "op"
+
+end XsVerif.Driver.C14
+
+def main : IO Unit := XsVerif.Driver.run XsVerif.Driver.C14.handle
